@@ -29,7 +29,7 @@ RULE = ('case = batch of generated values, one real task per value (JSONData dic
         'equality (bool!=int, float bits, dtype, shape, order) + file hashes unchanged by load. non-trivial = value is not a flat '
         'scalar/empty container (depth>=2, or boundary number, or non-ASCII text, or >=2-d / non-default dtype array, or >=11 list items); '
         'distinct = typed canonical digest of (kind, value)')
-REQUIRED = ['values', 'json_values', 'numpy_values', 'pandas_values', 'generated_values', 'lazy_values', 'listnp_values', 'dir_values',
+REQUIRED = ['values', 'failed_first_attempts', 'long_sequences', 'json_values', 'numpy_values', 'pandas_values', 'generated_values', 'lazy_values', 'listnp_values', 'dir_values',
             'fresh_chain_loads', 'fresh_process_loads', 'file_hash_checks', 'falsy_top_level', 'zero_d_arrays', 'lists_over_10_arrays']
 ASSUMPTIONS = ['domain per the property statement: NaN/inf in JSON, tuples, non-string keys, lone surrogates, integers outside 64 bit, '
                'object/structured arrays are outside it and not generated',
@@ -168,8 +168,34 @@ def gen_frame(rng):
 
 
 def gen_items(rng):
+    if rng.random() < 0.06:
+        # long sequences around round sizes (writers that buffer / batch rows)
+        n = rng.choice([255, 256, 999, 1000, 1001, 1024, 2000, 2049, 4097])
+        kind = rng.choice(['int', 'str', 'dict', 'mixed'])
+        mk = {'int': lambda i: i, 'str': lambda i: f's{i}', 'dict': lambda i: {'i': i}, 'mixed': lambda i: [i, {'k': str(i)}, None][i % 3]}[kind]
+        return [mk(i) for i in range(n)]
     n = rng.choice([0, 0, 1, 2, 5, 30, 300])
     return [gen_json(rng, 0, rng.choice([0, 1, 3])) for _ in range(n)]
+
+
+class _Unstorable:
+    """neither JSON nor pickle can write it"""
+
+    def __reduce__(self):
+        raise TypeError('cannot be stored')
+
+
+def poisoned(rng, kind, v):
+    """a value of the same task whose storing fails part-way, after MORE has been written than the final value holds; None = not built for this kind"""
+    if kind == 'listnp':
+        return list(v) + [gen_array(rng) for _ in range(rng.randint(1, 4))] + [_Unstorable()]
+    if kind in ('generated', 'lazy'):
+        return list(v) + [{'extra': i} for i in range(rng.randint(1, 4))] + [_Unstorable()]
+    if kind == 'json' and isinstance(v, dict):
+        return {**v, 'zz_extra': list(range(50)), 'zz_poison': _Unstorable()}
+    if kind == 'json' and isinstance(v, list):
+        return list(v) + list(range(50)) + [_Unstorable()]
+    return None
 
 
 def gen_tree(rng):
@@ -230,8 +256,12 @@ RUNS = []
 
 VALUES = None   # set by the harness in the computing process only: a run anywhere else is an error
 
+FIRST = {{}}    # task index -> value whose storing fails part-way (a failed earlier attempt of the same task)
+
 def _value(i):
     RUNS.append(i)
+    if i in FIRST:
+        return FIRST.pop(i)
     return VALUES[i]
 
 {classes}
@@ -364,6 +394,26 @@ def run_case(case) -> CaseResult:
         from taskchain import Config
         import c06mod
         c06mod.VALUES = values
+        # a failed earlier attempt of some tasks: the result could not be stored completely; the retry returns the (smaller) final value
+        first = {}
+        for i, (k, v) in enumerate(zip(kinds, values)):
+            if rng.random() < case.get('failed_first', 0.0):
+                pv = poisoned(rng, k, v)
+                if pv is not None:
+                    first[i] = pv
+        if first:
+            c06mod.FIRST = dict(first)
+            chain0 = Config(data_dir, name='c06', data={'tasks': ['c06mod.*']}).chain()
+            for i in first:
+                try:
+                    chain0[f't{i}'].value
+                    res.count('poisoned_attempts_that_did_not_fail')
+                    values[i] = first[i]
+                    res.inconclusive.append(f'{kinds[i]}: the poisoned first attempt did not fail')
+                except Exception:
+                    res.count('failed_first_attempts')
+            c06mod.FIRST = {}
+            c06mod.RUNS.clear()
         chain1 = Config(data_dir, name='c06', data={'tasks': ['c06mod.*']}).chain()
         canon_run = []
         ok_idx = []
@@ -380,6 +430,8 @@ def run_case(case) -> CaseResult:
                 res.count('zero_d_arrays')
             if k == 'listnp' and len(v) > 10:
                 res.count('lists_over_10_arrays')
+            if k in ('generated', 'lazy') and len(v) > 200:
+                res.count('long_sequences')
             try:
                 got1 = observed_form(k, chain1[f't{i}'].value)
             except Exception as e:
@@ -452,4 +504,5 @@ def cases(tier, seed):
     rng = random.Random(f'c06-{seed}')
     n = 160 if tier == 'quick' else 6000
     for i in range(n):
-        yield {'n': 30, 'seed': rng.randrange(1 << 30), 'kinds': ALL_KINDS, 'fresh_process': i % (5 if tier == 'quick' else 3) == 0}
+        yield {'n': 30, 'seed': rng.randrange(1 << 30), 'kinds': ALL_KINDS, 'fresh_process': i % (5 if tier == 'quick' else 3) == 0,
+               'failed_first': 0.25 if i % 2 else 0.0}
